@@ -93,7 +93,233 @@ def check_C01(tier, rng, rep):
                       "plus TLC -simulate behaviours of make/bin/inv actions", exhaustive=not quick)
 
 
-CHECKS = {"C01": check_C01}
+
+def region_jobs(unames, reals, rng, *, per_universe=None, opts=None, pred=None):
+    jobs = []
+    for un in unames:
+        st = spectab.load(un)
+        regs = [r for r in range(st.u.NR) if not st.pinch(r) and (pred is None or pred(st, r))]
+        if per_universe is not None:
+            regs = runner.sample(regs, per_universe, rng)
+        for k, reg in enumerate(regs):
+            for rn in reals if not callable(reals) else reals(k):
+                jobs.append((un, rn, reg, dict(opts or {})))
+    return jobs
+
+
+def query_rows(unames, reals, rng, *, per_universe=None, classes=("T", "I", "P"), opts=None):
+    jobs = []
+    for un in unames:
+        rows = [r for r in models.pair_rows(un) if r["op"] == "or" and r["cls"] in classes]
+        if per_universe is not None:
+            rows = runner.sample(rows, per_universe, rng)
+        for k, row in enumerate(rows):
+            for rn in reals if not callable(reals) else reals(k):
+                jobs.append((un, rn, row, dict(opts or {})))
+    return jobs
+
+
+def check_C02(tier, rng, rep):
+    """point membership is geometric truth with the boundary rule"""
+    from . import queries
+    quick = tier == "quick"
+    for un in ([rng.choice(U2)] if quick else U2 + U3):
+        rep.add_tlc("PlaneThm/" + un, models.plane_thm(un, ["ThmKindShape", "ThmLoops", "ThmLoopCorners"]))
+    proper = lambda st, r: r not in (0,)
+    if quick:
+        jobs = region_jobs(U2, lambda k: [(POLY + CURVED)[k % 6]], rng, per_universe=8, pred=proper)
+        jobs += region_jobs(U3, lambda k: [(POLY + CURVED)[k % 6]], rng, per_universe=6, pred=proper)
+        jobs += region_jobs(["U2cross", "U3hole"], ["poly-float"], rng, per_universe=3, pred=lambda st, r: st.kind(r) in "SCD", opts={"frame": ("s2", "r2", "m1")})
+    else:
+        jobs = region_jobs(U2, POLY + CURVED + EXTRA, rng, pred=proper)
+        jobs += region_jobs(U3, lambda k: [(POLY + CURVED + EXTRA)[k % 9], (POLY + CURVED + EXTRA)[(k + 4) % 9]], rng, pred=proper)
+        jobs += region_jobs(U2, ["poly-float", "quad-float"], rng, pred=lambda st, r: st.kind(r) in "SCD", opts={"frame": ("s2", "r2", "m1")})
+    res = runner.pool_map(queries.points_case, jobs)
+    rep.add_results("points", res)
+    rep.cov["points_queried"] = sum(r.get("stats", {}).get("points", 0) for r in res)
+    rep.assumptions.append("witnesses: cell centres, points at 2% and 0.1% of a cell from its sides and corners (inside the sagitta of curved edges), points on unit edges, grid vertices, far points (up to 10^4 windows away); classified exactly in the pre-image")
+    return rep.finish(tier, rule="(universe, pinch-free region, realisation) triples; every witness point of the universe is queried with boundary=True and False and compared with PointClass from the specification tables; all are non-trivial (proper regions)", exhaustive=not quick)
+
+
+def check_C03(tier, rng, rep):
+    """`B in A` is subset, for shapes and curves"""
+    from . import queries
+    quick = tier == "quick"
+    for un in ([rng.choice(U2), "U3chain"] if quick else U2 + U3):
+        rep.add_tlc("PlaneThm/" + un, models.plane_thm(un, ["ThmSubset", "ThmBdryIn"]))
+    un = rng.choice(["U2nest", "U2notch", "U2bite"]) if quick else "U2notch"
+    rep.add_tlc("ShapeSys/%s/r2" % un, models.shapesys_check(un, regs=2, maxobj=4, props=["SubsetLaw"], invs=["TypeOK"], acts=("mkreg", "query")))
+    if quick:
+        jobs = query_rows(U2, lambda k: [(POLY + CURVED[:2])[k % 5]], rng, per_universe=60)
+        jobs += query_rows(U3, lambda k: [(POLY + CURVED[:2])[k % 5]], rng, per_universe=60, classes=("T",))
+    else:
+        jobs = query_rows(U2, POLY + CURVED + EXTRA, rng)
+        jobs += query_rows(U3, lambda k: [(POLY + CURVED + EXTRA)[k % 9]], rng, classes=("T", "P"))
+    res = runner.pool_map(queries.pairq_case, jobs)
+    rep.add_results("pairq", res, nontrivial=lambda r: r["row"]["a"] != r["row"]["b"] and r["row"]["a"] and r["row"]["b"])
+    return rep.finish(tier, rule="ordered pairs of pinch-free regions (rows of ShapeSysExport) x realisation; `B in A`, `A in B`, curves of B in A (closed/open), A in A, and the consequences A|B == A, A&B == B; non-trivial = distinct non-empty regions", exhaustive=not quick)
+
+
+def check_C07(tier, rng, rep):
+    """== is region equality and an equivalence"""
+    from . import queries
+    quick = tier == "quick"
+    un = rng.choice(["U2nest", "U2notch", "U2corner"]) if quick else "U2corner"
+    rep.add_tlc("ShapeSys/%s/r2" % un, models.shapesys_check(un, regs=2, maxobj=4, props=[], invs=["TypeOK", "Canonical"], acts=("mkreg", "query", "copy")))
+    if quick:
+        jobs = query_rows(U2, lambda k: [(POLY + CURVED[:2])[k % 5]], rng, per_universe=50)
+        jobs += query_rows(U3, lambda k: [(POLY + CURVED[:2])[k % 5]], rng, per_universe=50, classes=("T", "I"))
+    else:
+        jobs = query_rows(U2, POLY + CURVED + EXTRA, rng)
+        jobs += query_rows(U3, lambda k: [(POLY + CURVED + EXTRA)[k % 9]], rng)
+    # make sure equal pairs (the interesting direction) are present
+    for un in (U2 + U3):
+        rows = [r for r in models.pair_rows(un) if r["op"] == "or" and r["a"] == r["b"] and r["a"] not in (0,)]
+        for k, row in enumerate(runner.sample(rows, 5 if quick else len(rows), rng)):
+            jobs.append((un, (POLY + CURVED)[k % 6], row, {}))
+    res = runner.pool_map(queries.pairq_case, jobs)
+    rep.add_results("pairq", res, nontrivial=lambda r: True)
+    return rep.finish(tier, rule="ordered pairs of pinch-free regions x realisation: A == B and B == A against region equality, must be bool; for equal regions the variants {rotated start vertex, deep copy, every other segment split at 1/2, float coordinates} must be == in every direction (symmetry, transitivity)", exhaustive=not quick)
+
+
+def check_C04(tier, rng, rep):
+    """area and moments are the true integrals"""
+    from . import queries
+    quick = tier == "quick"
+    for un in ([rng.choice(U2), rng.choice(U3)] if quick else U2 + U3):
+        rep.add_tlc("PlaneThm/" + un, models.plane_thm(un, ["ThmGreen", "ThmMomCompl"]))
+    proper = lambda st, r: r not in (0, st.u.full)
+    if quick:
+        jobs = region_jobs(U2, lambda k: [(POLY + CURVED)[k % 6], (POLY + CURVED)[(k + 3) % 6]], rng, per_universe=10, pred=proper)
+        jobs += region_jobs(U3, lambda k: [(POLY + CURVED)[k % 6]], rng, per_universe=16, pred=proper)
+    else:
+        jobs = region_jobs(U2 + U3, POLY + CURVED + EXTRA, rng, pred=proper)
+        jobs += region_jobs(U2, ["poly-frac", "quad-float"], rng, pred=proper, opts={"frame": ("s2", "m2")})
+    res = runner.pool_map(queries.moments_case, jobs)
+    rep.add_results("moments", res)
+    rep.assumptions.append("exact equality demanded for int/Fraction polygons; 1e-9 of the absolute moment where the library's Newton-Cotes rule is exact for the integrand (degree 1: all; degree 2: a+b<=2; degree 3: area); 2e-3 otherwise ('quadrature accuracy')")
+    return rep.finish(tier, rule="(universe, pinch-free proper region, realisation): IntegrateShape.polynomial for all a+b<=4, IntegrateShape.area, float(), bool(), sum of IntegrateJordan.area against the exact cell-weight sums of the realisation", exhaustive=not quick)
+
+
+def check_C05(tier, rng, rep):
+    """inclusion-exclusion on the library's own numbers"""
+    from . import queries
+    quick = tier == "quick"
+    for un in ([rng.choice(U2), rng.choice(U3)] if quick else U2 + U3):
+        rep.add_tlc("PlaneThm/" + un, models.plane_thm(un, ["ThmInclExcl", "ThmMomCompl"]))
+    if quick:
+        jobs = query_rows(U2, lambda k: [(POLY + CURVED[:2])[k % 5]], rng, per_universe=40, classes=("T",))
+        jobs += query_rows(U3, lambda k: [(POLY + CURVED[:2])[k % 5]], rng, per_universe=40, classes=("T",))
+    else:
+        jobs = query_rows(U2, POLY + CURVED + EXTRA, rng, classes=("T",))
+        jobs += query_rows(U3, lambda k: [(POLY + CURVED + EXTRA)[k % 9]], rng, classes=("T",))
+    res = runner.pool_map(queries.incl_excl_case, jobs)
+    rep.add_results("incl", res, nontrivial=nontrivial_pair)
+    rep.assumptions.append("operand pairs are restricted to transversal (T-class) pairs; degenerate pairs are covered, with their known findings, by C01")
+    return rep.finish(tier, rule="ordered T-class pairs of pinch-free regions x realisation: the four identities on the library's own moments of order <= 2 (exact for rational polygons, 1e-5 of the absolute moment otherwise) and each result moment against the specification's Moment(reg')", exhaustive=not quick)
+
+
+def singleton_rows(un):
+    """the documented singleton laws as rows: S|~S, S&~S, S-S, S^S, S^~S"""
+    u = Universe(un)
+    out = []
+    for r in models.pair_rows(un):
+        a, b, op = r["a"], r["b"], r["op"]
+        if a in (0, u.full):
+            continue
+        if (op in ("or", "and", "xor") and b == u.full ^ a) or (op in ("sub", "xor") and b == a):
+            out.append(r)
+    return out
+
+
+def check_C06(tier, rng, rep):
+    """results are canonical, well-formed; singletons"""
+    quick = tier == "quick"
+    for un in ([rng.choice(U2), rng.choice(U3)] if quick else U2 + U3):
+        rep.add_tlc("PlaneThm/" + un, models.plane_thm(un, ["ThmKindShape", "ThmComplRow", "ThmSingletonLaws", "ThmLoops", "ThmLoopCorners"]))
+    un = rng.choice(["U2corner", "U2bite", "U2nest"]) if quick else "U2cross"
+    rep.add_tlc("ShapeSys/%s/r2" % un, models.shapesys_check(un, regs=2, maxobj=4, props=["FreshResults"], invs=["TypeOK", "Canonical"], acts=("make", "bin", "inv")))
+    o = {"check_c10": False}
+    jobs = []
+    if quick:
+        jobs += pair_jobs(U2, lambda k: [(POLY + CURVED[:2])[k % 5]], rng, per_universe=70, classes=("T",), opts=o)
+        jobs += pair_jobs(U3, lambda k: [(POLY + CURVED[:2])[k % 5]], rng, per_universe=70, classes=("T",), opts=o)
+    else:
+        jobs += pair_jobs(U2, POLY + CURVED + EXTRA, rng, classes=("T",), opts=o)
+        jobs += pair_jobs(U3, lambda k: [(POLY + CURVED + EXTRA)[k % 9]], rng, classes=("T",), opts=o)
+    for un in U2 + U3:
+        rows = singleton_rows(un)
+        for k, row in enumerate(runner.sample(rows, 12 if quick else len(rows), rng)):
+            for rn in ([(POLY + CURVED[:1])[k % 4]] if quick else POLY + CURVED):
+                jobs.append((un, rn, replay.pair_case(Universe(un), row), o))
+    res = runner.pool_map(replay.run_case, jobs)
+    rep.add_results("pairs", res, nontrivial=nontrivial_pair)
+    return rep.finish(tier, rule="one-step operator behaviours on T-class pairs plus the singleton-law rows (S|~S, S&~S, S-S, S^S, S^~S for every pinch-free S): kind, number of curves, corner cycles, vertex cycles (segmentation), junction identity, zero-length pieces, singleton identity", exhaustive=not quick)
+
+
+GEN_SMALL = ("m1", "M1", "s1", "S1", "r1", "R1")
+GEN_ALL = ("m1", "M1", "m2", "M2", "s1", "S1", "s2", "S2", "r1", "R1", "r2", "R2")
+
+
+def check_C08(tier, rng, rep):
+    """operands unchanged, results share nothing"""
+    quick = tier == "quick"
+    un = rng.choice(["U2corner", "U2bite", "U2cross"]) if quick else "U2cross"
+    rep.add_tlc("ShapeSys/%s/r2" % un, models.shapesys_check(un, regs=2, maxobj=4, props=["OperandsUnchanged", "FreshResults"], invs=["TypeOK", "Canonical"]))
+    acts = ("make", "mkreg", "bin", "inv", "copy", "invert", "transform", "alias", "query", "drop")
+    sims, jobs = sim_jobs([rng.choice(U2[2:]), rng.choice(U3)] if quick else U2 + U3, ["poly-frac", "poly-float", "quad-float"] if quick else POLY + CURVED,
+                          num=36 if quick else 150, depth=11, seed=runner.seed() + 8, opts={"check_c10": False, "deep_all": True},
+                          acts=acts, gens=GEN_SMALL, maxframe=2, regs=3, maxobj=6, constraint="NoTrivialStart")
+    for un, r in sims:
+        rep.add_tlc("ShapeSys-sim/" + un, r)
+    res = runner.pool_map(replay.run_case, jobs)
+    rep.add_results("sim", res)
+    # operands of the one-step corpus (region, frame unchanged; predicted segmentation)
+    jobs = pair_jobs(U2 if quick else U2 + U3, lambda k: [(POLY + CURVED[:2])[k % 5]], rng, per_universe=40 if quick else None, classes=("T",), opts={"check_c10": False})
+    res = runner.pool_map(replay.run_case, jobs)
+    rep.add_results("pairs", res, nontrivial=nontrivial_pair)
+    return rep.finish(tier, rule="TLC -simulate behaviours (make/mkreg/bin/inv/copy/invert/transform/alias/query/drop, depth 11) replayed with bit-exact snapshots of every bystander object, identity structure (aliasing, singletons) and id-disjointness of distinct objects after every step; plus operands of the one-step operator corpus", exhaustive=False)
+
+
+def check_C09(tier, rng, rep):
+    """move / rotate / scale are the affine maps"""
+    quick = tier == "quick"
+    un = rng.choice(["U2nest", "U2corner"]) if quick else "U2corner"
+    rep.add_tlc("ShapeSys/%s/r2/frames" % un, models.shapesys_check(un, regs=2, maxobj=4, gens=("m1", "M1", "s1", "r1"), maxframe=2,
+                                                                     props=["OperandsUnchanged", "FreshResults"], invs=["TypeOK", "Canonical"],
+                                                                     acts=("make", "transform", "copy", "inv", "alias", "badtransform"), ops=("or",)))
+    acts = ("make", "mkreg", "transform", "badtransform", "copy", "inv", "query", "alias")
+    sims, jobs = sim_jobs([rng.choice(U2), rng.choice(U3)] if quick else U2 + U3, ["poly-frac", "poly-float", "quad-float", "poly-int"] if quick else POLY + CURVED + EXTRA,
+                          num=30 if quick else 120, depth=10, seed=runner.seed() + 9, opts={"check_c10": False, "deep_all": True},
+                          acts=acts, gens=GEN_ALL, maxframe=3, regs=2, maxobj=5, constraint="NoTrivialStart")
+    for un, r in sims:
+        rep.add_tlc("ShapeSys-sim/" + un, r)
+    res = runner.pool_map(replay.run_case, jobs)
+    rep.add_results("sim", res)
+    rep.assumptions.append("generators: move(3,-2), move(1/2,7), scale(2,2), scale(3,1/2), rotate(90 deg), rotate(atan2(3,4)) and inverses; exact comparison (and Fraction types) for move/scale on rational polygons, 1e-9 after rotations")
+    return rep.finish(tier, rule="TLC -simulate behaviours with Transform/BadTransform actions (frame words of length <= 3 over 12 generators) on objects of every kind; after each step witnesses are mapped through the exact affine map of the frame word, moments by exact substitution; a word reducing to the empty word must give a shape == the original", exhaustive=False)
+
+
+def check_C19(tier, rng, rep):
+    """direct composite constructors equal operator results"""
+    from . import queries
+    quick = tier == "quick"
+    un = rng.choice(["U2nest", "U2disj", "U2comb"]) if quick else "U2comb"
+    rep.add_tlc("ShapeSys/%s/r2" % un, models.shapesys_check(un, regs=2, maxobj=4, props=["ResultIsSetAlgebra", "FreshResults"], invs=["TypeOK", "Canonical"], acts=("mkreg", "bin", "query")))
+    multi = lambda st, r: st.nloops(r) >= 2
+    if quick:
+        jobs = region_jobs(U2 + U3, lambda k: [(POLY + CURVED[:2])[k % 5]], rng, per_universe=7, pred=multi)
+    else:
+        jobs = region_jobs(U2 + U3, POLY + CURVED, rng, pred=multi)
+    res = runner.pool_map(queries.c19_case, jobs)
+    rep.add_results("c19", res)
+    rep.cov["orders_tried"] = sum(r.get("stats", {}).get("perms", 0) for r in res)
+    return rep.finish(tier, rule="(universe, pinch-free region with >= 2 boundary curves, realisation): ConnectedShape/DisjointShape built directly from the boundary loops in up to 6 orders of components x 6 orders of holes, with and without Empty entries, compared with the specification record, with the operator-built object (== both ways), complement; collapse rules", exhaustive=not quick)
+
+
+CHECKS = {"C01": check_C01, "C02": check_C02, "C03": check_C03, "C04": check_C04, "C05": check_C05, "C06": check_C06,
+          "C07": check_C07, "C08": check_C08, "C09": check_C09, "C19": check_C19}
+
 
 
 def main(argv=None):
